@@ -34,7 +34,22 @@ pub fn dump(probe_layout_json: &str) -> Value {
             json!([m, s as u8, a as u8])
         })
         .collect();
+    // META of SplittedString::split: a one-character string is all "preceding" iff the character is a meta character
+    let is_meta = class_members(|c| {
+        let (p, w, _t) = h::split(&c.to_string(), false);
+        !p.is_empty() && w.is_empty()
+    });
+    // first-letter table of the phonetic suggestion maker, for every ASCII character
+    let mut ptables = Vec::new();
+    for b in 0u8..128 {
+        let l = h::phonetic_tables_for(&(b as char).to_string());
+        if !l.is_empty() {
+            ptables.push(json!([b, l]));
+        }
+    }
     json!({
+        "is_meta": is_meta,
+        "phonetic_tables": ptables,
         "keychar": keychar,
         "layout_lookups": lookups,
         "modifiers": mods,
